@@ -46,6 +46,9 @@ BROKER_KINDS = ('CONNACK', 'PUBLISH0', 'PUBLISH1', 'PUBLISH2', 'PUBACK', 'PUBREC
 
 def broker_packet(eng, kind, ntopic=1, npayload=1, ngranted=1, payload_filler=0):
     """reference-encoded broker packet of `kind` with symbolic fields -> (byte list, fields)"""
+    if kind == 'CONNACK0':
+        sp = eng.int('sp', 0, 1)
+        return ref.enc_connack(sp, 0), {'kind': kind, 'session': sp, 'rc': 0}
     if kind == 'CONNACK':
         sp, rc = eng.int('sp', 0, 1), eng.int('rc', 0, 255)
         return ref.enc_connack(sp, rc), {'kind': kind, 'session': sp, 'rc': rc}
@@ -122,8 +125,37 @@ def busy_prefix(eng, profile, state, keepalive=0, clean=True, ver=311, jitter_po
     """protocol of `profile` in `state` ('idle', 'connecting', 'connected') with one request of
     every kind the profile allows pending.  Returns (world, conn, {tag: Tracked})."""
     w = World(eng, profile, jitter_pool=jitter_pool)
-    c = w.build()
     req = {}
+    if state == 'reconnecting':
+        # handshake in progress on a resumed persistent session: requests carried over from a lost connection
+        c0 = w.build()
+        w.begin_step('connect-0')
+        connect(w, c0, 0, False, ver)
+        w.begin_step('connack-0')
+        connack(w, c0)
+        w.begin_step('requests-0')
+        c0.p.setWindowSize(window)
+        if profile in ('publisher', 'pubsubs'):
+            req['pub1'] = w.api(c0, 'publish', 'pub1', topic(eng), mkbytearray(eng, [1]), qos=1)
+            req['pub2'] = w.api(c0, 'publish', 'pub2', topic(eng), mkbytearray(eng, [2]), qos=2)
+            req['pub3'] = w.api(c0, 'publish', 'pub3', topic(eng), mkbytearray(eng, [3]), qos=2)
+            w.begin_step('pubrec-0')
+            w.rx_list(c0, ref.enc_ack(ref.PUBREC, req['pub3'].msgId))
+        if profile in ('subscriber', 'pubsubs'):
+            w.begin_step('inbound-qos2-0')
+            w.rx_list(c0, ref.enc_publish(topic(eng, 0x69), [9], 2, 0, 0, 77))
+        w.begin_step('lose-0')
+        w.lose(c0)
+        c = w.build()
+        if profile in ('subscriber', 'pubsubs'):
+            c.stored_rx = {'msgId': 77, 'topic': [0x69], 'payload': [9]}
+        w.begin_step('connect')
+        c.connect_tr = connect(w, c, keepalive, False, ver)
+        req['connect'] = c.connect_tr
+        c.version = ver
+        c.clean = False
+        return w, c, req
+    c = w.build()
     if state == 'idle':
         return w, c, req
     w.begin_step('connect')
